@@ -145,6 +145,21 @@ pub(crate) fn run_sat(root: SolvableOrRootId, starting_level: u32) {
     });
 }
 
+/// The encoder marked a solvable (or the root) as processed and queued the
+/// request for its dependencies.
+pub(crate) fn queued_solvable(solvable: SolvableOrRootId) {
+    emit(|| match solvable.solvable() {
+        None => "queued solvable root".to_string(),
+        Some(s) => format!("queued solvable {}", s.to_usize()),
+    });
+}
+
+/// The encoder marked a package as processed and queued the request for its
+/// candidates.
+pub(crate) fn queued_package(name: NameId) {
+    emit(|| format!("queued package {}", name.to_usize()));
+}
+
 pub(crate) fn soft_fail(root: SolvableOrRootId, clause: ClauseId) {
     emit(|| match root.solvable() {
         None => format!("softfail root {}", clause.to_usize()),
